@@ -53,9 +53,19 @@ impl Histogram {
             .drain()
             .into_iter()
             .filter(|bucket| bucket.count() > 0)
-            .map(|bucket| Bucket {
-                value: midpoint(bucket.range()) as u32,
-                count: bucket.count() as u32,
+            .flat_map(|bucket| {
+                let value = midpoint(bucket.range()) as u32;
+                // A bucket can hold more than `u32::MAX` observations. Report them as several
+                // buckets with the same value rather than truncating the count.
+                let mut remaining = bucket.count();
+                std::iter::from_fn(move || {
+                    let count = remaining.min(u32::MAX as u64);
+                    remaining -= count;
+                    (count > 0).then_some(Bucket {
+                        value,
+                        count: count as u32,
+                    })
+                })
             })
             // TODO: We need to upstream a change to `histogram` to fix `into_iter`
             .collect::<Vec<_>>()
